@@ -162,8 +162,27 @@ def run(ctx):
                        fi.where)
         users = {cs.caller.qual for cs in p.build_callgraph() if cs.caller is not None and
                  isinstance(cs.node.func, ast.Name) and False}
-        # the word list itself is indexed only inside bip39
+        # the word list is turned into sentences only by mnemonic_from_entropy: no function that the sentence-generating
+        # entry points can reach (outside bip39) touches the list or a table derived from it.  (Other uses - e.g. a CLI
+        # validator that looks words up - are not sentence generation and are outside this property.)
+        roots = [p.get_function(q) for q in ('base_wallet.BaseWallet.from_entropy_hex', 'base_wallet.BaseWallet.from_entropy_bits',
+                                             'base_wallet.BaseWallet.new_wallet', 'bip85.BIP85DeterministicEntropy.bip39_mnemonic',
+                                             'bip39.mnemonic_from_entropy_bits', 'bip39.mnemonic_from_entropy')]
+        reach = p.reachable_from(roots)
         for m in p.modules.values():
             if m.name.endswith('bip39') or m.name.endswith('bip39_wordlist'):
                 continue
-            ob.require('word_list' not in m.imports, 'module %s builds sentences from the word list directly' % m.name, m.relpath)
+            if 'word_list' not in m.imports:
+                ob.evaluations += 1
+                continue
+            derived = {'word_list'}
+            for nm, nodes in m.assigns.items():
+                if any(isinstance(x, ast.Name) and x.id in derived for nd in nodes for x in ast.walk(nd)):
+                    derived.add(nm)
+            for fi in p.functions.values():
+                if fi.module is not m:
+                    continue
+                uses = any(isinstance(x, ast.Name) and x.id in derived for x in ast.walk(fi.node))
+                ob.require(not (uses and fi in reach),
+                           '%s is reachable from the sentence-generating entry points and uses the word list directly '
+                           '(sentences must be built by mnemonic_from_entropy only)' % fi.qual[len(PKG) + 1:], fi.where)
